@@ -391,6 +391,39 @@ func init() {
 		return &StructV{Typ: tt, Fields: []Value{nsec, tc.BvAdd(sec, tc.Const(64, 62135596800)), &PtrV{}}}
 	})
 
+	// ----- reflect (only the nil test used by mgr.NewGroup) -----
+	reg("reflect.ValueOf", func(p *Path, fn *ssa.Function, args []Value) Value {
+		return &ReflectV{V: args[0]}
+	})
+	reg("(reflect.Value).IsNil", func(p *Path, fn *ssa.Function, args []Value) Value {
+		rv, ok := args[0].(*ReflectV)
+		if !ok {
+			p.unsupported("reflect.Value.IsNil on a value not produced by reflect.ValueOf")
+		}
+		iv, ok := rv.V.(*IfaceV)
+		if !ok || iv.Typ == nil {
+			p.obligation(p.tc.False, "panic", "reflect-isnil", "reflect: call of reflect.Value.IsNil on zero Value")
+			p.end("gopanic", "reflect IsNil on zero Value")
+		}
+		switch x := iv.Val.(type) {
+		case *PtrV:
+			return p.tc.Bool(x.Obj == nil)
+		case *MapV:
+			return p.tc.Bool(x.M == nil)
+		case *SliceV:
+			return p.tc.Bool(x.Obj == nil)
+		case *FuncV:
+			return p.tc.Bool(x.Fn == nil && x.Builtin == "")
+		case *ChanV:
+			return p.tc.Bool(x == nil)
+		case *IfaceV:
+			return p.tc.Bool(x.Typ == nil)
+		}
+		p.obligation(p.tc.False, "panic", "reflect-isnil", "reflect: call of reflect.Value.IsNil on non-nillable value")
+		p.end("gopanic", "reflect IsNil on non-nillable")
+		return nil
+	})
+
 	// ----- crypto/rand -----
 	randRead := func(p *Path, fn *ssa.Function, args []Value) Value {
 		s := args[len(args)-1].(*SliceV)
